@@ -1,1 +1,91 @@
 //! Verification hooks: `remote_map` (thin pass-through wrappers; feature `verif-hooks` only).
+
+use std::{
+    collections::BTreeSet,
+    sync::{
+        Arc,
+        atomic::{AtomicU64, Ordering},
+    },
+    time::Duration,
+};
+
+use iroh_base::{EndpointAddr, EndpointId};
+use n0_watcher::Watchable;
+use tokio::sync::oneshot;
+use tokio_util::sync::CancellationToken;
+use tracing::Span;
+
+use crate::{
+    address_lookup::{AddressLookupFailed, AddressLookupServices},
+    socket::{
+        DirectAddr, Metrics as SocketMetrics, biased_rtt_path_selector::BiasedRttPathSelector,
+        remote_map::RemoteMap as Inner,
+    },
+};
+
+/// Idle timeout of `RemoteStateActor`s in microseconds; 0 = the built-in constant.
+static IDLE_TIMEOUT_OVERRIDE_US: AtomicU64 = AtomicU64::new(0);
+
+/// Overrides (or restores, with `None`) the idle timeout of all `RemoteStateActor`s.
+pub fn set_idle_timeout_override(timeout: Option<Duration>) {
+    let us = timeout.map(|d| d.as_micros().max(1) as u64).unwrap_or(0);
+    IDLE_TIMEOUT_OVERRIDE_US.store(us, Ordering::SeqCst);
+}
+
+pub(crate) fn idle_timeout_override() -> Option<Duration> {
+    match IDLE_TIMEOUT_OVERRIDE_US.load(Ordering::SeqCst) {
+        0 => None,
+        us => Some(Duration::from_micros(us)),
+    }
+}
+
+/// The crate-private `RemoteMap`, constructed as the in-crate test helper does.
+#[derive(Debug)]
+pub struct RemoteMap {
+    inner: Inner,
+    shutdown_token: CancellationToken,
+    _local_direct_addrs: Watchable<BTreeSet<DirectAddr>>,
+}
+
+impl RemoteMap {
+    pub fn new(address_lookup: AddressLookupServices) -> Self {
+        let metrics = Arc::new(SocketMetrics::default());
+        let watchable: Watchable<BTreeSet<DirectAddr>> = Watchable::new(BTreeSet::new());
+        let shutdown_token = CancellationToken::new();
+        let inner = Inner::verif_new(
+            metrics,
+            watchable.watch(),
+            address_lookup,
+            shutdown_token.clone(),
+            Arc::new(BiasedRttPathSelector::default()),
+            Span::none(),
+        );
+        Self {
+            inner,
+            shutdown_token,
+            _local_direct_addrs: watchable,
+        }
+    }
+
+    pub async fn resolve_remote(
+        &mut self,
+        addr: EndpointAddr,
+        tx: oneshot::Sender<Result<(), AddressLookupFailed>>,
+    ) {
+        self.inner.verif_resolve_remote(addr, tx).await
+    }
+
+    pub async fn cleanup(&mut self) -> EndpointId {
+        self.inner.verif_cleanup().await
+    }
+
+    pub fn shutdown_token(&self) -> CancellationToken {
+        self.shutdown_token.clone()
+    }
+}
+
+impl Drop for RemoteMap {
+    fn drop(&mut self) {
+        self.shutdown_token.cancel();
+    }
+}
